@@ -220,9 +220,9 @@ def percentile_case(ctx):
     ctx.count("percentile")
 
 
-def statistics_case(ctx, c, out, size, seed):
+def statistics_case(ctx, c, out, size, seed, opts=None):
     import dask.array as da
-    desc = dict(calib.case_desc(c), sub="convergence", mc_sample_size=size, np_seed=seed)
+    desc = dict(calib.case_desc(c, opts or {}), sub="convergence", mc_sample_size=size, np_seed=seed)
     np.random.seed(seed)
     state = da.random.RandomState(seed)
     ci = [2.5, 50.0, 97.5]
@@ -253,8 +253,19 @@ def statistics_case(ctx, c, out, size, seed):
                 i, j = np.unravel_index(int(np.argmax(np.abs(ratio - 1.0))), ratio.shape)
                 ctx.fail(f"{name}_mc_var / {name}_var outside the {band:.3f} band at {100 * (1 - okc.mean()):.1f} % of the cells "
                          f"(worst [{i},{j}]: {ratio[i, j]:.4f})", desc)
-    ctx.case(sig=["convergence", c.double, nta, size, seed], nontrivial=c.noise > 0, sample=desc)
-    ctx.count("convergence")
+    ctx.case(sig=["convergence", c.double, nta, size, seed, sorted(opts or {})], nontrivial=c.noise > 0, sample=desc)
+    ctx.count("convergence" + (" with " + "+".join(sorted(opts)) if opts else ""))
+
+
+def fixed_with_variance(c, rng):
+    """parameters fixed at their true value with a NON-ZERO variance large enough to dominate the propagated variance: the Monte
+    Carlo has to vary them with exactly that variance (they are part of N(p_val, p_cov) like every other parameter)"""
+    g = (float(c.truth["gamma"]), 0.25)
+    if c.double:
+        a = (np.array(c.truth["alpha"], dtype=float) - float(c.truth["alpha"][fibre.ix_sec(c)[0]]), np.full(c.nx, 4e-7))
+        return [{"fix_gamma": g}, {"fix_alpha": a}]
+    return [{"fix_gamma": g}, {"fix_dalpha": (float(c.truth["dalpha"]), (2e-4 / max(c.span, 1.0)) ** 2)},
+            {"fix_alpha": (np.array(c.truth["alpha"], dtype=float), np.full(c.nx, 4e-7))}]
 
 
 def gen(ctx, rng, only0=False, noise=None):
@@ -306,6 +317,16 @@ def run(ctx):
         if isinstance(out, tuple):
             continue
         statistics_case(ctx, c, out, size, seed=1000 + k)
+    # fixed parameters that carry a variance are sampled with it (single- and double-ended; no splices: every fit is identifiable)
+    for double in (False, True):
+        c = fibre.make_case(rng, double=double, nx=rng.randint(10, 16), nt=2, n_baths=2, n_stretch=3, nta=0, n_match=0, noise=0.002,
+                            var_kind="float")
+        for o in fixed_with_variance(c, rng):
+            out, _ = calib.run_real(c, **o)
+            if isinstance(out, tuple):
+                ctx.skip("calibration with a fixed parameter refused")
+                continue
+            statistics_case(ctx, c, out, size, seed=3000 + len(o), opts=o)
 
 
 def search(ctx):
